@@ -761,11 +761,12 @@ fn many_gaps_corpus(thorough: bool) -> Vec<Scn> {
         out.push(s);
     }
     // the seeded shape: 35 messages of 100 bytes, one SACK with cum = first TSN and 17 single-TSN blocks, then time
+    // (35 fenced submissions take ~100 ms: a longer RTO keeps the scripted phase well below rto/4)
     let mut s = Scn::new("timed-many-gaps");
-    s.timed = true; s.rto_ms = 240;
+    s.timed = true; s.rto_ms = 800;
     s.steps = vec![];
     for i in 0..35u8 { s.steps.push(Step::Send(0, false, Pay::Fill(100, i))); }
-    s.steps.extend(vec![Step::Pkt(vec![InChunk::Sack(SackKind::Scatter(1, 17, 1), big)]), Step::Silence(240 * 5 / 2), Step::Flush(30), Step::Silence(300)]);
+    s.steps.extend(vec![Step::Pkt(vec![InChunk::Sack(SackKind::Scatter(1, 17, 1), big)]), Step::Silence(800 * 2), Step::Flush(30), Step::Silence(300)]);
     out.push(s);
     out
 }
